@@ -62,7 +62,13 @@ func (k Keeper) IsProofSessionHeightWithinTolerance(ctx sdk.Ctx, relaySessionBlo
 		return false
 	}
 	latestSessionHeight := k.GetLatestSessionBlockHeight(ctx)
-	tolerance := types.GlobalPocketConfig.ClientSessionSyncAllowance * k.posKeeper.BlocksPerSession(ctx)
+	blocksPerSession := k.posKeeper.BlocksPerSession(ctx)
+	// a session starts at heights 1, 1+blocksPerSession, ... only: with a session sync allowance the
+	// range below also covers heights inside the previous sessions
+	if blocksPerSession > 0 && (relaySessionBlockHeight-1)%blocksPerSession != 0 {
+		return false
+	}
+	tolerance := types.GlobalPocketConfig.ClientSessionSyncAllowance * blocksPerSession
 	minHeight := latestSessionHeight - tolerance
 	return sdk.IsBetween(relaySessionBlockHeight, minHeight, latestSessionHeight)
 }
